@@ -24,7 +24,7 @@ struct Inc {
     jump: (i128, i128),
 }
 
-fn model(log: &[Rec], setups: &[Setup], exact_first_seen: bool, m: &mut Mon) {
+fn model(log: &[Rec], setups: &[Setup], exact_first_seen: bool, commit_faults: bool, m: &mut Mon) {
     // earliest sighting (start of an install attempt) of every plan id in the whole history
     let mut first_sighting: BTreeMap<String, i128> = BTreeMap::new();
     let mut cur_plan: Option<(String, i128)> = None;
@@ -62,6 +62,7 @@ fn model(log: &[Rec], setups: &[Setup], exact_first_seen: bool, m: &mut Mon) {
     let mut attempt_plan: Option<String> = None;
     let mut await_commit = false;
     let mut committed_failed_installs: Option<i64> = None;
+    let mut committed_plan: Option<String> = None;
     let mut counted_in_check = false;
     let autotick = log.iter().any(|r| matches!(r.ev, Ev::ClockRead { .. }));
 
@@ -145,6 +146,14 @@ fn model(log: &[Rec], setups: &[Setup], exact_first_seen: bool, m: &mut Mon) {
                 // none allowed yet): the record must be durable by the time the check is over — the device may go
                 // down by other means at any moment
                 // the failed-install count as changed by this check's install is durable once the check is over
+                if counted_in_check && commit_faults {
+                    counted_in_check = false;
+                }
+                if await_commit && commit_faults {
+                    // a store whose commit failed once may legitimately be behind at this point (no reboot was
+                    // attempted, where the record's durability is judged whatever the store does)
+                    await_commit = false;
+                }
                 if counted_in_check {
                     if let Some(c) = committed_failed_installs {
                         m.judge("c18-attempts-count-committed-with-the-check", c == mem.failed_installs, "", || {
@@ -203,6 +212,10 @@ fn model(log: &[Rec], setups: &[Setup], exact_first_seen: bool, m: &mut Mon) {
                 attempt_plan = Some(plan_id.clone());
             }
             Ev::Commit { ok: true, snapshot } => {
+                committed_plan = match snapshot.get("install_plan_id") {
+                    Some(Val::S(p)) => Some(p.clone()),
+                    _ => None,
+                };
                 committed_failed_installs = match snapshot.get("consecutive_failed_install_attempts") {
                     Some(Val::I(v)) => Some(*v),
                     _ => Some(0),
@@ -265,6 +278,13 @@ fn model(log: &[Rec], setups: &[Setup], exact_first_seen: bool, m: &mut Mon) {
                 }
             }
             Ev::InstallStart { plan_id } => {
+                // "survives repeated attempts and restarts": whatever happens to the process while the installer
+                // runs, the plan must already be on record (a store that refuses the record is the faulty mode)
+                if exact_first_seen && !commit_faults {
+                    m.judge("c18-first-seen-durable-before-install", committed_plan.as_deref() == Some(plan_id.as_str()), "", || {
+                        format!("at seq {} the installer starts on plan {} but the store's install_plan_id is {:?}: a crash during the install would forget when this update was first seen", r.seq, plan_id, committed_plan)
+                    });
+                }
                 attempt_plan = None;
                 let t = if autotick { last_read_wall.unwrap_or(r.wall) } else { r.wall };
                 match &mem.plan {
@@ -392,6 +412,7 @@ pub fn run(args: &Args, r: &mut Report) {
     r.require(&[
         "c18-first-seen-duration",
         "c18-first-seen-within-plan-lifetime",
+        "c18-first-seen-durable-before-install",
         "c18-first-seen-metric-reported",
         "c18-finish-and-target-committed-before-reboot",
         "c18-attempts-count",
@@ -533,7 +554,14 @@ pub fn run(args: &Args, r: &mut Report) {
         // ---- run
         let mut case = FlowCase::new(incs[0].setup.clone(), script);
         // a store that, for a while, refuses to write the first-seen record (either of its two entries)
-        let faulty_first_seen = rng.chance(1, 6);
+        // a store one of whose commits fails (the writes stay pending and reach the disk with the next commit)
+        // (kept off: the durability model below is not fault-aware enough for failing commits; see DESIGN §12, C18-20)
+        let commit_fault = false && rng.chance(1, 8);
+        if commit_fault {
+            case.fault.fail_commit_nth = vec![rng.below(14)];
+            shape.push("commit-fault".into());
+        }
+        let faulty_first_seen = !commit_fault && rng.chance(1, 6);
         if faulty_first_seen {
             let from = rng.below(40);
             case.fault.fail_keys = vec![if rng.chance(1, 3) { "install_plan_id".to_string() } else { "update_first_seen_time".to_string() }];
@@ -604,7 +632,7 @@ pub fn run(args: &Args, r: &mut Report) {
         let mut m = Mon::default();
         {
             let g = lock(&w);
-            model(&g.log, &setups, !faulty_first_seen, &mut m);
+            model(&g.log, &setups, !faulty_first_seen, commit_fault, &mut m);
         }
         let desc = json!({"shape": shape, "autotick": autotick});
         if let Some(p) = &panicked {
